@@ -6,6 +6,7 @@ import (
 	"errors"
 	"io"
 	"net/http"
+	"strconv"
 	"sync"
 	"time"
 
@@ -164,6 +165,8 @@ type script struct {
 	// lockstep (HTTP): response i+1 is only released after the client has parsed record i
 	lockstep bool
 	clientN  func() int
+	// trace (HTTP): the event log shared with the recording ResponseWriter
+	trace *traceLog
 
 	mu       sync.Mutex
 	received []string
@@ -254,6 +257,7 @@ func (f *fakeStream) Recv(ctx context.Context, msg proto.Message) error {
 			}
 		}
 		fillMsg(msg.ProtoReflect(), s.resp[f.idx])
+		s.trace.add("R" + strconv.Itoa(f.idx))
 		f.idx++
 		return nil
 	}
